@@ -25,6 +25,19 @@ theorem resume_equiv (P : Params) (v : Variant) (s : Sc) (x : Start) (w : World)
     a.msgs = b.msgs ∧ a.rc = b.rc ∧ a.sc = b.sc ∧ a.world = b.world ∧ a.rc ≠ .blockNotReady :=
   runToEnd_eq_uninterrupted P v x.cb x.stack s x.it w fuel hcb (by simp [Start.it]) hblk hfuel
 
+/-- **The deadline is the deadline of the scan, not of the call.** A special case of `resume_equiv` worth its own
+    line (the stopwatch is started in the fresh-scan prologue only, `freshInit`; a resumed call keeps `swStart`):
+    when the uninterrupted scan — whose iterator may take time, `Act.stall` — ends with ERROR_SCAN_TIMEOUT, so does
+    the scan interrupted by "not ready" answers and resumed, however the waiting is split over the calls. -/
+theorem timeout_not_extended_by_resume (P : Params) (v : Variant) (s : Sc) (x : Start) (w : World) (fuel : Nat)
+    (hcb : s.set.hasCallback = true)
+    (hblk : nrWithin (x.blocks.length + 1) x.sched = true)
+    (hfuel : countNR x.sched < fuel)
+    (hto : (scanCall P v x.cb x.stack s { x.it with sched := dropNR x.sched } w).rc = .scanTimeout) :
+    (runToEnd P v x.cb x.stack fuel s x.it w).rc = .scanTimeout := by
+  have h := (resume_equiv P v s x w fuel hcb hblk hfuel).2.1
+  exact h.trans hto
+
 /-- **The invariant behind it**: when the loop is suspended, its state (matches, flags, entry point,
     iterator position, clock, messages so far) is the state of the uninterrupted run at the same iterator
     position — continuing without interruptions from the suspension point gives the uninterrupted loop. -/
